@@ -33,9 +33,16 @@ def build(rng, tier):
             if '.' in n.split('/')[-1][1:]: add('/' + n.rsplit('.', 1)[0])   # extensionless
         for d in dirs:
             add('/' + d); add('/' + d + '/'); add('/' + d + '?x=1'); add('/' + d + '/index.html'); add('/' + d + '/missing.txt')
+        if ti % 4 == 1:
+            tree.file(tree.cwd + b'/docs/x.txt', b'x').file(tree.cwd + b'/docs.html', b'<d>').file(tree.cwd + b'/old.html.html', b'<o>')
+            tree.file(tree.cwd + b'/idx/index.html/inner.txt', b'i').file(tree.cwd + b'/ghost.html/inner.txt', b'g')
+            for t in ['/docs', '/docs/', '/old.html', '/idx', '/idx/', '/ghost', '/' + names[0] + '#x?y', '/' + names[0] + '#x']: add(t, 'proc')
         for t in ['/missing', '/missing/', '/missing.html', '/sub/missing', '/index.html', '/404.html', '/a b.txt', '/a%20b.txt', '/a&b.txt', '/.hidden0.txt']:
             add(t)
         batches.append((tree, cases))
+    # F43: a working directory whose own path contains a character file-ext's filter refuses
+    tree = S.gen_tree(rng, small=True); tree.root = tree.root + b' with space'; tree.cwd_refused = True
+    batches.append((tree, [K.mk(tree, 'GET', '/' + n.decode('utf-8', 'surrogateescape'), entry='proc', kind='lookup') for n in tree.names[:6]]))
     return batches
 
 def judge(res, results):
@@ -54,9 +61,10 @@ def judge(res, results):
         spec = K.spec_lookup(c.tree, tb)
         res.count('spec ' + spec[0] + (' ' + spec[1] if spec[0] == 'unspecified' else ''))
         if spec[0] == 'hit':
-            _, rel, content = spec
+            rel, content = spec[1], spec[2]
+            variant = spec[3] if len(spec) > 3 else ('fragment-qmark' if K.fragment_has_qmark(tb) else 'cwd-refused' if getattr(c.tree, 'cwd_refused', False) else None)
             if resp['status'] != 200:
-                res.fail('lookup-miss', c.line[:300], f'status {resp["status"]}', None, f'C02: GET {c.target!r} should serve {rel!r} ({len(content)} bytes) but was answered {resp["status"]}')
+                res.fail('lookup-miss' + (':' + variant if variant else ''), c.line[:300], f'status {resp["status"]}', None, f'C02: GET {c.target!r} should serve {rel!r} ({len(content)} bytes) but was answered {resp["status"]}')
                 continue
             if resp['body'] != content:
                 res.fail('wrong-bytes', c.line[:300], f'{len(resp["body"])} bytes, first difference at {first_diff(resp["body"], content)}', None,
